@@ -78,6 +78,33 @@ C01Cases ==
   \cup { [st |-> Select(<<>>, w, <<>>, <<>>, NoLim), sid |-> "I"] : w \in NumAtoms(NumLefts) \cup Combos(SmallNum \cup SmallStr) }
   \cup { [st |-> Select(<<>>, w, <<>>, <<>>, NoLim), sid |-> "F"] : w \in NumAtoms(FltLefts) }
   \cup { [st |-> Select(<<>>, w, <<>>, <<>>, NoLim), sid |-> "E"] : w \in SmallStr \cup SmallNum }
+  \cup { [st |-> Select(<<>>, w, <<>>, <<>>, NoLim), sid |-> "Z"] : w \in SmallStr \cup {All, ABin("=", AVal, AStr(<<>>)), ABin("<=", AKey, AStr(<<>>)), ABin("=", Call1("strlen", AKey), AInt(0))} }
+
+-----------------------------------------------------------------------------
+(* pt: point reads.  Every non-empty sub-list of ten candidate keys (five stored - one of them with an empty value -
+   and five absent, interleaved so that runs of absent keys of length 1 and 2 sit before, between and after stored ones),
+   alone and AND-ed with a value test; the batch sizes 1, 2, 3 put a whole fetch round on absent keys. *)
+PtKeys == << a, <<97, 97>>, ab, <<97, 99>>, <<97, 100>>, bb, <<98, 122>>, c1, <<99, 51>>, <<122>> >>
+PtList(S) == LET RECURSIVE Go(_) Go(i) == IF i > Len(PtKeys) THEN <<>> ELSE (IF i \in S THEN <<AStr(PtKeys[i])>> ELSE <<>>) \o Go(i + 1) IN Go(1)
+RevSeq(q) == [i \in 1..Len(q) |-> q[Len(q) + 1 - i]]
+PtCases == { [st |-> Select(<<>>, w, <<>>, <<>>, NoLim), sid |-> "T"] :
+               w \in UNION { { AIn(AKey, PtList(S)), ABin("&", AIn(AKey, PtList(S)), ABin("!=", AVal, AStr(<<120>>))),
+                               AIn(AKey, RevSeq(PtList(S))) }                                   \* written in descending order: rows still ascend
+                             : S \in (SUBSET (1..Len(PtKeys))) \ {{}} } }
+\* point reads under an alias filter (c05), ORDER BY key (c07) and DELETE ... LIMIT (c08d)
+PtKeysI == << a, <<97, 97>>, ab, <<97, 99>>, bb, <<98, 122>>, c1, <<99, 51>> >>
+PtListI(S) == LET RECURSIVE Go(_) Go(i) == IF i > Len(PtKeysI) THEN <<>> ELSE (IF i \in S THEN <<AStr(PtKeysI[i])>> ELSE <<>>) \o Go(i + 1) IN Go(1)
+C05Pt == { [st |-> Select(<<F(AKey, "k"), F(Call1("int", AVal), "n"), F(ABin("*", AName("n"), AInt(2)), "d")>>, ABin("&", AIn(AKey, PtListI(S)), pr), <<>>, <<>>, NoLim), sid |-> "I"] :
+             S \in (SUBSET (1..Len(PtKeysI))) \ {{}}, pr \in { ABin("<", AName("n"), AInt(5)), ABin(">", AName("d"), AInt(2)) } }
+C07Pt == { [st |-> Select(fs, AIn(AKey, l), <<O(1, FALSE)>>, <<>>, NoLim), sid |-> sid] :
+             fs \in { <<>>, <<F(AKey, "k"), F(AVal, "")>> },
+             l \in { <<AStr(c1), AStr(a), AStr(bb), AStr(ab)>>, <<AStr(dd), AStr(<<97, 122>>), AStr(a)>>, <<AStr(c2), AStr(c1), AStr(bb), AStr(ba), AStr(abc), AStr(ab), AStr(a)>>, <<AStr(a), AStr(c1), AStr(ab)>> },
+             sid \in {"O", "T", "I"} }
+KSeq(n) == <<107>> \o (IF n < 10 THEN <<48>> ELSE <<>>) \o Dig(n)
+PtKeysD == << KSeq(0), KSeq(1), KSeq(2), KSeq(5), KSeq(3), KSeq(9), KSeq(4) >>      \* the store N4 holds k01..k04: k00, k05, k09 are absent
+PtListD(S) == LET RECURSIVE Go(_) Go(i) == IF i > Len(PtKeysD) THEN <<>> ELSE (IF i \in S THEN <<AStr(PtKeysD[i])>> ELSE <<>>) \o Go(i + 1) IN Go(1)
+C08DPt == { [st |-> Stmt("delete", <<>>, AIn(AKey, PtListD(S)), <<>>, <<>>, Lim(st0, n)), sid |-> "N4"] :
+              S \in { T \in SUBSET (1..Len(PtKeysD)) : Cardinality(T) >= 2 }, st0 \in {0, 1, 2}, n \in {1, 2, 3} }
 
 -----------------------------------------------------------------------------
 (* c10: scalar functions and list / JSON indexing *)
@@ -138,7 +165,19 @@ C10Json == { [st |-> Select(<<F(AKey, ""), F(e, "")>>, ABin("^=", AKey, AStr(<<1
            \cup { [st |-> Select(<<>>, ABin("&", ABin("=", AKey, AStr(<<106, 49>>)), w), <<>>, <<>>, NoLim), sid |-> "J"] :
                      w \in { ABin("=", AIdx(JV, AStr(bb)), AStr(<<120>>)), ABin("^=", AIdx(AIdx(JV, AStr(<<111>>)), AStr(<<112>>)), AStr(<<113>>)),
                               ABin("!=", AIdx(AIdx(JV, AStr(<<111>>)), AStr(<<112>>)), AStr(<<122>>)) } }
-C10Cases == C10Fields \cup C10Preds \cup C10Json
+\* row-dependent arguments in EVERY position of the multi-argument functions (a chunk holds rows with different values)
+RowArgExprs == { ACall("join", <<AVal, AKey, AStr(<<120>>)>>), ACall("join", <<AKey, AVal, AVal>>), ACall("join", <<Call1("upper", AKey), AStr(a), AVal, AKey>>),
+                 Call2("split", AVal, AKey), Call2("split", AKey, AVal), ACall("substr", <<AVal, Call1("strlen", AKey), AInt(3)>>), ACall("substr", <<AVal, AInt(0), Call1("strlen", AKey)>>),
+                 ACall("substr", <<AKey, Call1("strlen", AVal), Call1("strlen", AKey)>>), Call2("cosine_distance", SplitV, SplitV),
+                 Call2("l2_distance", SplitV, ACall("list", <<Call1("strlen", AKey), AInt(2), AInt(2)>>)) }
+C10RowArgs == { [st |-> Select(<<F(AKey, ""), F(e, "")>>, All, <<>>, <<>>, NoLim), sid |-> sid] : e \in RowArgExprs, sid \in {"T", "V"} }
+\* integers beyond 2^53 keep every digit: straight from the pair, through str(), as a literal
+StoreB == << SP(<<57,48,48,55,49,57,57,50,53,52,55,52,48,57,57,51>>, <<55>>), SP(a, <<57,48,48,55,49,57,57,50,53,52,55,52,48,57,57,51>>), SP(ab, <<49,50,51,52,53,54,55,56,57,48,49,50,51,52,53,54,55,56,57>>),
+             SP(abc, <<45,57,48,48,55,49,57,57,50,53,52,55,52,48,57,57,51>>), SP(bb, <<52,50>>) >>
+BigExprs == { Call1("int", AVal), Call1("str", Call1("int", AVal)), Call1("int", AKey) , Call1("int", Call1("upper", AVal)), Call1("int", AStr(<<57,48,48,55,49,57,57,50,53,52,55,52,48,57,57,51>>)),
+              Call1("is_int", AVal), ABin("=", Call1("str", Call1("int", AVal)), AVal), AIdx(ACall("int_list", <<AVal, AInt(1)>>), AInt(0)) }
+C10Big == { [st |-> Select(<<F(AKey, ""), F(e, "")>>, ABin("!=", AKey, AStr(<<122>>)), <<>>, <<>>, NoLim), sid |-> "B"] : e \in BigExprs }
+C10Cases == C10Fields \cup C10Preds \cup C10Json \cup C10RowArgs \cup C10Big
 
 \* values for the function families: comma lists, numbers, mixed case
 StoreV == << SP(a, <<97, 44, 98, 44, 99>>), SP(ab, <<49, 44, 50, 44, 50>>), SP(abc, <<55>>), SP(bb, <<65, 98>>), SP(ba, <<49, 46, 53>>), SP(c1, <<>>), SP(c2, <<45, 51>>) >>
@@ -199,6 +238,7 @@ C08Select ==
 C08Delete ==
   { [st |-> Stmt("delete", <<>>, w, <<>>, <<>>, Lim(s, n)), sid |-> SizeId(sz)] : w \in {KAll, KSome}, s \in GridSmall, n \in GridSmall, sz \in SizesSmall \ {0} }
   \cup { [st |-> Stmt("delete", <<>>, w, <<>>, <<>>, Lim(s, n)), sid |-> SizeId(sz)] : w \in {KAll, KSome}, s \in {0, 31, 32, 33, 64}, n \in {1, 32, 33}, sz \in {33, 65} }
+  \cup C08DPt
 
 -----------------------------------------------------------------------------
 (* c07: ORDER BY *)
@@ -224,7 +264,11 @@ StoreM == << SP(<<97, 49>>, Dig(1)), SP(<<97, 50>>, Dig(2)), SP(<<98, 49>>, <<49
 C07Mixed == { [st |-> Select(AggFieldsV, All, ov, <<1>>, NoLim), sid |-> "M"] :
                 ov \in { <<O(2, d1)>> : d1 \in BOOLEAN } \cup { <<O(3, d1)>> : d1 \in BOOLEAN } \cup { <<O(2, d1), O(1, d2)>> : d1 \in BOOLEAN, d2 \in BOOLEAN } }
             \cup { [st |-> Select(<<F(AKey, ""), F(AVal, "")>>, All, <<O(2, d1)>>, <<>>, NoLim), sid |-> "M"] : d1 \in BOOLEAN }
-C07Cases == C07Plain \cup C07Aggr \cup C07Mixed
+\* a Boolean GROUP BY column as order key (the first group seen is `true`)
+C07BoolKey == { [st |-> Select(<<F(Call1("is_int", AVal), "b"), F(Call1("count", AInt(1)), "c")>>, All, ov, <<1>>, NoLim), sid |-> "O"] : ov \in { <<O(1, FALSE)>>, <<O(1, TRUE)>>, <<O(1, FALSE), O(2, TRUE)>> } }
+              \cup { [st |-> Select(<<F(AKey, ""), F(Call1("is_int", AVal), "b"), F(Call1("count", AInt(1)), "c")>>, All, ov, <<1, 2>>, NoLim), sid |-> "O"] :
+                       ov \in { <<O(2, FALSE), O(1, FALSE)>>, <<O(2, TRUE), O(1, FALSE)>>, <<O(2, FALSE), O(1, TRUE)>> } }
+C07Cases == C07Plain \cup C07Aggr \cup C07Mixed \cup C07Pt \cup C07BoolKey
 
 -----------------------------------------------------------------------------
 (* c09: GROUP BY and aggregates *)
@@ -252,7 +296,16 @@ C09All == { [st |-> Select(<<Aggs(x, xf)[k]>>, w, <<>>, <<>>, NoLim), sid |-> si
 CF1 == F(Call1("count", AInt(1)), "c")
 C09Refs == { [st |-> Select(<<F(ACall("substr", <<AKey, AInt(0), AInt(1)>>), "p"), CF1, F(ABin(op, Call1("sum", Call1("strlen", AKey)), AName("c")), "a")>>, w, <<>>, <<1>>, lim), sid |-> sid] :
                op \in {"*", "+", "-"}, w \in {All, ABin("!=", AKey, AStr(dd))}, lim \in {NoLim, Lim(1, 2)}, sid \in {"G", "I", "T"} }
-C09Cases == C09Grouped \cup C09All \cup C09Refs
+\* a stored pair whose key and value are both empty is a pair like any other (it is scanned first)
+StoreZ == << SP(<<>>, <<>>) >> \o StoreG
+C09Empty == { [st |-> Select(SeqOf(GExprs, g) \o <<Aggs(LenX, LenF)[k]>>, All, <<>>, [i \in 1..Len(g) |-> i], NoLim), sid |-> "Z"] : g \in { <<2>>, <<3>>, <<1, 2>> }, k \in 1..14 }
+            \cup { [st |-> Select(<<Aggs(LenX, LenF)[k]>>, All, <<>>, <<>>, NoLim), sid |-> "Z"] : k \in 1..14 }
+\* sums over the stored text itself: a group holding 1.5 then 2 (fraction first, integer last) and the other orders
+C09Raw == { [st |-> Select(<<F(ACall("substr", <<AKey, AInt(0), AInt(1)>>), "p"), f>>, All, <<>>, <<1>>, NoLim), sid |-> "M"] :
+              f \in { F(Call1("sum", AVal), "s"), F(Call1("avg", AVal), "av"), F(Call1("min", AVal), "m"), F(Call1("max", AVal), "x"), F(ABin("*", Call1("sum", AVal), AInt(2)), "s2") } }
+          \cup { [st |-> Select(<<f>>, w, <<>>, <<>>, NoLim), sid |-> "M"] :
+              f \in { F(Call1("sum", AVal), "s"), F(Call1("avg", AVal), "av") }, w \in { All, ABin("^=", AKey, AStr(bb)), ABin("^=", AKey, AStr(dd)) } }
+C09Cases == C09Grouped \cup C09All \cup C09Refs \cup C09Empty \cup C09Raw
 
 -----------------------------------------------------------------------------
 (* c05: aliases and the field cache.  Stores in which the first, middle and last scanned rows fail the filter. *)
@@ -286,7 +339,7 @@ C05Stmts == {
   Select(<<F(AKey, ""), NV>>, ABin("&", ABin(">", AKey, AStr(a)), ABin("!=", AName("n"), AInt(3))), <<>>, <<>>, NoLim),
   Select(<<F(AKey, ""), NV, UV>>, ABin("&", ABin(">", AName("n"), AInt(0)), ABin("!=", AName("u"), AStr(<<55>>))), <<>>, <<>>, Lim(1, 4))
 }
-C05Cases == { [st |-> st, sid |-> sid] : st \in C05Stmts, sid \in {"I", "S7", "S40", "E"} }
+C05Cases == { [st |-> st, sid |-> sid] : st \in C05Stmts, sid \in {"I", "S7", "S40", "E"} } \cup C05Pt
 
 -----------------------------------------------------------------------------
 (* c05k: the cases of the KvCache design model as real statements.  Rows k1..kn with value i; the key condition K
@@ -306,10 +359,10 @@ C05KCases == UNION { C05KFor(n) : n \in 1..(IF Scale >= 2 THEN 5 ELSE 4) }
 
 -----------------------------------------------------------------------------
 StoreOf(sid) == CASE sid = "T" -> StoreT [] sid = "I" -> StoreI [] sid = "F" -> StoreF [] sid = "E" -> <<>>
-                  [] sid = "J" -> StoreJ [] sid = "O" -> StoreO [] sid = "M" -> StoreM [] sid = "G" -> StoreG [] sid = "V" -> StoreV [] sid = "S40" -> SeqStore(40) [] sid = "S7" -> SeqStore(7) [] sid \in {"K" \o ToString(n) : n \in 1..5} -> StoreK(CHOOSE n \in 1..5 : "K" \o ToString(n) = sid) [] sid \in {SizeId(n) : n \in 0..100} -> SeqStore(CHOOSE n \in 0..100 : SizeId(n) = sid) [] OTHER -> <<>>
-StoreIds == {"T", "I", "F", "E", "J", "V", "O", "G", "M", "S40", "S7"} \cup {SizeId(n) : n \in SizesSmall \cup SizesBig} \cup {"K" \o ToString(n) : n \in 1..5}
+                  [] sid = "J" -> StoreJ [] sid = "O" -> StoreO [] sid = "M" -> StoreM [] sid = "G" -> StoreG [] sid = "Z" -> StoreZ [] sid = "B" -> StoreB [] sid = "V" -> StoreV [] sid = "S40" -> SeqStore(40) [] sid = "S7" -> SeqStore(7) [] sid \in {"K" \o ToString(n) : n \in 1..5} -> StoreK(CHOOSE n \in 1..5 : "K" \o ToString(n) = sid) [] sid \in {SizeId(n) : n \in 0..100} -> SeqStore(CHOOSE n \in 0..100 : SizeId(n) = sid) [] OTHER -> <<>>
+StoreIds == {"T", "I", "F", "E", "J", "V", "O", "G", "M", "Z", "B", "S40", "S7"} \cup {SizeId(n) : n \in SizesSmall \cup SizesBig} \cup {"K" \o ToString(n) : n \in 1..5}
 
-Cases == CASE Mode = "c01" -> C01Cases [] Mode = "c10" -> C10Cases [] Mode = "c04" -> C04Cases [] Mode = "c08" -> C08Select [] Mode = "c08d" -> C08Delete [] Mode = "c07" -> C07Cases [] Mode = "c09" -> C09Cases [] Mode = "c05" -> C05Cases [] Mode = "c05k" -> C05KCases [] OTHER -> {}
+Cases == CASE Mode = "c01" -> C01Cases [] Mode = "pt" -> PtCases [] Mode = "c10" -> C10Cases [] Mode = "c04" -> C04Cases [] Mode = "c08" -> C08Select [] Mode = "c08d" -> C08Delete [] Mode = "c07" -> C07Cases [] Mode = "c09" -> C09Cases [] Mode = "c05" -> C05Cases [] Mode = "c05k" -> C05KCases [] OTHER -> {}
 
 \* enumeration is split so that TLC's workers share it: Init picks a partition, Next a case of it
 FieldTag(c) == IF Len(c.st.fields) >= 2 THEN <<c.st.fields[2].e.k, c.st.fields[2].e.op, Len(c.st.fields[2].e.a)>> ELSE <<>>
